@@ -267,6 +267,10 @@ Proof.
   unfold fe_exe. rewrite He, Hw. reflexivity.
 Qed.
 
+Lemma gone_block : forall c denied esrch,
+  run_ops c None (gone_ops denied esrch) = spec_gone denied.
+Proof. intros c [|] [|]; reflexivity. Qed.
+
 (* one block of calls over an unchanged kernel state *)
 Lemma history : forall c r,
   wf_proc r = true -> (nl_translate c = true -> cmd_no_cr (p_cmd r) = true) ->
